@@ -19,6 +19,7 @@ type Config struct {
 	AuthIPDir    string `json:"authIpDir"`    // directory with authip.yaml watched by the real watcher ("" = none)
 	RawLog       bool   `json:"rawLog"`       // include raw bytes (hex) in recv/got events
 	SmallBuf     bool   `json:"smallBuf"`     // 8 KB socket buffers everywhere (back-pressure scenarios)
+	SockBuf      int    `json:"sockBuf"`      // explicit socket buffer size (overrides smallBuf's 8 KB)
 	ExtraNodes   int    `json:"extraNodes"`   // additional listening nodes x1.. not in the initial topology
 }
 
@@ -87,7 +88,8 @@ type MsgSnap struct {
 
 type CliSnap struct {
 	C    string    `json:"c"`
-	Msgs []MsgSnap `json:"msgs"`
+	N    int       `json:"n"`    // length of the queue
+	Msgs []MsgSnap `json:"msgs"` // its first 64 messages
 }
 
 type SrvSnap struct {
@@ -227,4 +229,15 @@ func (e *Event) norm() {
 	if e.Snap.Srv == nil {
 		e.Snap.Srv = []SrvSnap{}
 	}
+}
+
+// BufSize is the socket buffer size the configuration asks for (0: the system default).
+func (c *Config) BufSize() int {
+	if c.SockBuf > 0 {
+		return c.SockBuf
+	}
+	if c.SmallBuf {
+		return 8192
+	}
+	return 0
 }
